@@ -75,6 +75,7 @@ Allowed(i, o) ==
   /\ (o.res = "accepted" => ~i.forged)
   /\ (~i.forged /\ ~GetterFailed(i, o) /\ i.badMid = 0 => o.res = "accepted")
   /\ (i.forged => o.res = "refused")
+  /\ (GetterFailed(i, o) => o.res = "refused")
   /\ Len(o.calls) <= Bound(i.d)
   /\ PromotedVerified(i, o)
 
